@@ -23,7 +23,10 @@ def Buf.get {α} (b : Buf) (dec : Dec α) (old : α) : Buf × α :=
   | .ok =>
     if b.rest = [] then ({ b with st := .err .missing }, old)
     else match dec b.rest with
-      | .ok v w => ({ rest := b.rest.drop w, st := .ok }, v)
+      | .ok v w =>
+        -- `w := v.width(); if b.i+w > len(b.data) { b.err = ErrMissingData; return }` (repair of D13): the value is
+        -- stored, the cursor stays
+        if w ≤ b.rest.length then ({ rest := b.rest.drop w, st := .ok }, v) else ({ b with st := .err .missing }, v)
       | .err e => ({ b with st := .err e }, old)
       | .panic => ({ b with st := .panic }, old)
   | _ => (b, old)
